@@ -86,4 +86,6 @@ def panel (f : Feat) : Panel :=
     prog := prog f,
     ctrl := .ssd (Ssd.por false 25 200) }
 
+attribute [driver_simp] W setRamArea setRamCounter useFullFrame setLutHelper setLut init updateFrame displayFrame prog
+
 end EpdVerif.Drivers.Epd1in54_v2
